@@ -47,7 +47,7 @@ GB = dict(params={'label_scope': 'LabelScope?', 'instruction_address': 'int?', '
 # the contract callers of get_bytes see: deterministic bytes, as many as the instruction's size.  For the plain class
 # this is what the C01 contract proves (len(result) == _byte_size, never None) plus determinism of the parts' values;
 # for the composite class it is what the contract below proves.
-contract(AI + '.get_bytes', name='abs:AssembledInstruction.get_bytes', props=['C10'], assumed=True, covers_overrides=True,
+contract(AI + '.get_bytes', name='abs:AssembledInstruction.get_bytes', props=['C10', 'C02'], assumed=True, covers_overrides=True,
          reason='abstraction of the two verified get_bytes contracts (C01: AssembledInstruction, C10: Composite...) '
                 'used at call sites: the bytes are a function of (instruction, scope, label tables, address, size)',
          may_raise={'SystemExit': 'True', 'ValueError': 'True'},
